@@ -28,7 +28,7 @@ ID = "C30"
 LEVEL = "exploration"
 RULE = (
     "work unit = one generated corpus (8-24 template sets x configuration drawn from sync/async, sandboxed, i18n extension, "
-    "loop controls, autoescape) biased to the sites where a set of names becomes emitted text (stores in both branches of an if, "
+    "loop controls, autoescape, an environment-dependent finalize callable shared between environments) biased to the sites where a set of names becomes emitted text (stores in both branches of an if, "
     "many filters/tests in a frame, multi-name top-level sets and block sets, include / import-with-context after stores at "
     "several frame depths, multi-name from-imports, macros with varargs/kwargs/caller, tuple unpacking) compiled in 3 (quick) or "
     "6 (thorough) fresh interpreters with drawn PYTHONHASHSEED values, each in two drawn orders with clear_caches and unrelated "
@@ -73,7 +73,7 @@ def run(tape: Tape) -> Outcome:
     nontrivial_ids = set()
     for si in range(nsets):
         cfg = {"async": bool(tape.draw(2)), "sandboxed": tape.draw(4) == 3, "i18n": tape.draw(4) == 3,
-               "loopcontrols": bool(tape.draw(2)), "autoescape": bool(tape.draw(2))}
+               "loopcontrols": bool(tape.draw(2)), "autoescape": bool(tape.draw(2)), "finalize": tape.draw(3) == 2}
         g = Gen(tape, is_async=cfg["async"], loopcontrols=cfg["loopcontrols"], compile_bias=True, size=2 + tape.draw(3))
         P = g.generate()
         biased = any(P.features.get(b) for b in BIAS)
